@@ -370,11 +370,12 @@ func writerCheck(r *bx.Run, quiet bool) string {
 						return
 					}
 					want := uint64(vtime.Now().Sub(epoch) / (10 * time.Microsecond))
-					// the timestamp is the current time in 10 us units; a writer may push it forward by
-					// one tick per earlier frame of the link to keep timestamps strictly increasing
-					// (the signing rule of the MAVLink guide), never more, never backwards
-					if ts := it.Frame.Timestamp; ts < want || ts > want+uint64(i) {
-						problem = fmt.Sprintf("%s: write %d at virtual time %v (clock gaps %v): timestamp %d, want floor((now-2015-01-01)/10us) = %d (at most %d ticks ahead)", kind, i, vtime.Now().UTC(), seq, ts, want, i)
+					// the timestamp is the current time in 10 us units (truncated or rounded to the
+					// nearest unit); a writer may push it forward by one tick per earlier frame of the
+					// link to keep timestamps strictly increasing (the signing rule of the MAVLink
+					// guide), never more, never backwards
+					if ts := it.Frame.Timestamp; ts < want || ts > want+1+uint64(i) {
+						problem = fmt.Sprintf("%s: write %d at virtual time %v (clock gaps %v): timestamp %d, want floor((now-2015-01-01)/10us) = %d (at most %d ticks ahead)", kind, i, vtime.Now().UTC(), seq, ts, want, i+1)
 						return
 					} else if ts < last {
 						problem = fmt.Sprintf("%s: timestamp decreased %d -> %d", kind, last, ts)
